@@ -93,6 +93,22 @@ def run_case(rng, idx, tier):
             viol.append({"key": k, "err": e, "msg": "%s(%s,%s) [%s]: relation '%s' off by %.3g of |f| (got %s, expected %s)" % (
                 "contact_forces", k1, k2, placement, name, e, np.asarray(got).tolist(), np.asarray(want).tolist())})
 
+    # torques: wrench12 carries the torque about the centre of mass of body 2, wrench21 about that of body 1, both as
+    # free vectors in the world frame; they follow the swap / rigid motion / repeat relations like the forces. Scale:
+    # |f| times the size of the bodies (a 5 % error of the force acting at a lever arm of one body size)
+    D = max(hydro.body_oracle(k1, p1, T1).scale(), hydro.body_oracle(k2, p2, T2).scale())
+
+    def relt(name, got, want, flag):
+        if flag is not None and flag != hit:
+            return
+        ev["torque_relations_checked"] = ev.get("torque_relations_checked", 0) + 1
+        e = float(np.linalg.norm(np.asarray(got) - np.asarray(want))) / (f * D)
+        worst[name] = max(worst.get(name, 0.0), e)
+        if e > REL:
+            viol.append({"key": dict(key0, kind="relation-violated", relation=name), "err": e,
+                         "msg": "contact_forces(%s,%s) [%s]: relation '%s' off by %.3g of |f|*size (got %s, expected %s)" % (
+                             k1, k2, placement, name, e, np.asarray(got).tolist(), np.asarray(want).tolist())})
+
     rel("action-reaction f12 = -f21", w12[:3], -w21[:3], None)
     # documented option return_details=True must not change the wrenches (same inputs: compared at 1e-9)
     a, b = bodies()
@@ -125,6 +141,8 @@ def run_case(rng, idx, tier):
     if r is not None:
         rel("swap: f12(b2,b1) = f21(b1,b2)", r[1][:3], w21[:3], r[0])
         rel("swap: f21(b2,b1) = f12(b1,b2)", r[2][:3], w12[:3], r[0])
+        relt("swap: torque12(b2,b1) = torque21(b1,b2)", r[1][3:], w21[3:], r[0])
+        relt("swap: torque21(b2,b1) = torque12(b1,b2)", r[2][3:], w12[3:], r[0])
     # common rigid motion
     G = O.pose(gen.rand_rot(rng, str(rng.choice(["haar", "perm", "axis"]))), gen.center(rng, far_ok=False))
     a, b = bodies(G)
@@ -132,10 +150,35 @@ def run_case(rng, idx, tier):
     if r is not None:
         rel("rigid motion: f12' = R f12", r[1][:3], G[:3, :3] @ w12[:3], r[0])
         rel("rigid motion: f21' = R f21", r[2][:3], G[:3, :3] @ w21[:3], r[0])
+        relt("rigid motion: torque12' = R torque12", r[1][3:], G[:3, :3] @ w12[3:], r[0])
+        relt("rigid motion: torque21' = R torque21", r[2][3:], G[:3, :3] @ w21[3:], r[0])
     # repeat on the same bodies (b1 has been re-expressed in b2's frame by the reference call)
     r = call(b1, b2, "repeated")
     if r is not None:
         rel("repeat: same bodies again", r[1][:3], w12[:3], r[0])
+        relt("repeat: torques again", np.r_[r[1][3:], r[2][3:]], np.r_[w12[3:], w21[3:]], r[0])
+    # the bodies move between two time steps by editing their pose in place (as the upstream pressure-field example
+    # does): the second query must equal a query on fresh bodies at the new poses
+    try:
+        dlt = gen.rand_dir(rng) * 0.02 * D
+        b2.body2origin_[:3, 3] += dlt
+        r = call(b1, b2, "after in-place move of body 2")
+        T2m = np.array(T2, dtype=float); T2m[:3, 3] += dlt
+        fa = hydro.make_body(k1, p1, T1); fb = hydro.make_body(k2, p2, T2m)
+        fa.youngs_modulus = E[0]; fb.youngs_modulus = E[1]
+        rf = call(fa, fb, "fresh bodies at the moved poses")
+        if r is not None and rf is not None and rf[0]:
+            ev["inplace_moves"] = ev.get("inplace_moves", 0) + 1
+            fm = max(float(np.linalg.norm(rf[1][:3])), 1e-300)
+            em = float(np.linalg.norm(r[1][:3] - rf[1][:3])) / fm
+            worst["in-place move vs fresh"] = max(worst.get("in-place move vs fresh", 0.0), em)
+            if bool(r[0]) != bool(rf[0]) or em > REL:
+                viol.append({"key": dict(key0, kind="relation-violated", relation="in-place pose edit = fresh bodies at the new pose"), "err": em,
+                             "msg": "contact_forces(%s,%s) [%s] after body 2 was moved in place by %s: force differs from fresh bodies at the same poses by %.3g of |f| (flag %s vs %s)" % (
+                                 k1, k2, placement, dlt.tolist(), em, r[0], rf[0])})
+        b2.body2origin_[:3, 3] -= dlt
+    except Exception as e:  # noqa: BLE001
+        viol.append({"key": dict(key0, kind="exception", exc=type(e).__name__, where="in-place move"), "err": None, "msg": "in-place move raised %s: %s" % (type(e).__name__, str(e)[:160])})
     # interleaved history: a third body in between, changing roles
     try:
         k3 = str(rng.choice(hydro.BODIES)); p3 = hydro.body_params(rng, k3, 0.15)
@@ -145,9 +188,11 @@ def run_case(rng, idx, tier):
         r = call(b1, b2, "after-history")
         if r is not None:
             rel("history: (1,2) after (2,3),(3,1)", r[1][:3], w12[:3], r[0])
+            relt("history: torques (1,2) after (2,3),(3,1)", np.r_[r[1][3:], r[2][3:]], np.r_[w12[3:], w21[3:]], r[0])
         r = call(b2, b1, "after-history-swapped")
         if r is not None:
             rel("history: swapped after history", r[1][:3], w21[:3], r[0])
+            relt("history: torques swapped after history", np.r_[r[1][3:], r[2][3:]], np.r_[w21[3:], w12[3:]], r[0])
     except Exception as e:  # noqa: BLE001
         viol.append({"key": dict(key0, kind="exception", exc=type(e).__name__, where="history"), "err": None, "msg": "history raised %s: %s" % (type(e).__name__, str(e)[:160])})
     # tree based vs brute force broad phase
